@@ -30,6 +30,17 @@ def parse_entries(content):
     return out
 
 
+def env_at_clean(case, ops):
+    """(ci, upd) in force when the first clean op ran (robust against shrinking)"""
+    ci, upd = case.get("ci", False), case.get("updvar", "unset")
+    for name, kv in ops:
+        if name == "clean":
+            break
+        if name == "setenv":
+            ci, upd = kv["ci"] == "1", kv["upd"]
+    return ci, upd
+
+
 class CleanBase(Prop):
     fields = {"obs": ["outcome", "errors", "logs", "writes", "line"], "fs": "*", "counters": "*", "clean": CLEAN_FIELDS}
 
@@ -125,7 +136,9 @@ class C09(CleanBase):
         before, after = fss[0][2], fss[1][2]
         c = cl[0][2]
         fails = []
-        deletes = (not meta["ci"]) and meta["upd"] in ("true", "clean")
+        ci_, upd_ = env_at_clean(case, ops)
+        sort_ = next((kv["sort"] == "1" for name, kv in ops if name == "clean"), False)
+        deletes = (not ci_) and upd_ in ("true", "clean")
         main = hx(b"/S/def/zz_verif_trace_test.snap")
         # what the run actually addressed (robust against shrinking): per test, calls per execution
         calls, execs, stand = {}, {}, {}
@@ -188,7 +201,7 @@ class C09(CleanBase):
             if sorted(ent_after) != sorted(ent_before):
                 fails.append({"msg": "report-only mode changed the entries of the addressed file (sorting may only reorder): before %s after %s"
                               % ([i for i, _ in ent_before], [i for i, _ in ent_after])})
-            if not (meta["sort"] and not meta["ci"]) and after.get(main) != before.get(main):
+            if not (sort_ and not ci_) and after.get(main) != before.get(main):
                 fails.append({"msg": "file rewritten although neither deletion nor sorting was allowed"})
         # untouched: files without .snap, sub-directories, unvisited directories
         for p in before:
